@@ -161,8 +161,8 @@ void genFiles(Prng& r, Plan& p, int tier)
 		case 4: case 5: p.ops.push_back(op("tput", {path, (int64_t)(1 + r.below(6)), (int64_t)(r.below(4) == 0 ? 2000 : 600), (int64_t)r.below(4), (int64_t)r.below(2), (int64_t)(r.next() >> 20)})); break;
 		case 6: p.ops.push_back(op("tapp", {path, (int64_t)(1 + r.below(4)), (int64_t)(r.below(4) == 0 ? 3000 : 300), (int64_t)r.below(4), (int64_t)(r.next() >> 20), (int64_t)r.below(8)})); break; // last: 1 long-lived appender, 2 reset by assignment, 4 mixed with one-shot appenders
 		case 7: p.ops.push_back(op("tprintf", {path, (int64_t)(1 + r.below(5)), (int64_t)(r.next() >> 20)})); break;
-		case 8: p.ops.push_back(op("copy", {path, (int64_t)r.below(NPATH), (int64_t)r.below(2)})); break;
-		case 9: p.ops.push_back(op("move", {path, (int64_t)r.below(NPATH), (int64_t)r.below(2)})); break;
+		case 8: p.ops.push_back(op("copy", {path, (int64_t)r.below(NPATH), (int64_t)r.below(4)})); break;
+		case 9: p.ops.push_back(op("move", {path, (int64_t)r.below(NPATH), (int64_t)r.below(4)})); break;
 		case 12: case 13: p.ops.push_back(op("same", {path, (int64_t)r.below(3), len, (int64_t)(r.next() >> 20)})); break;
 		case 10: p.ops.push_back(op("bom", {path, (int64_t)r.below(3), (int64_t)biased(r, 0, 400, {0, 1, 2}), (int64_t)(r.next() >> 20), (int64_t)r.below(2)})); break;
 		default: p.ops.push_back(op("rm", {path})); break;
@@ -585,7 +585,10 @@ void runFiles(const Plan& p)
 			}
 			else
 				arm();
-			bool ok = o.k == "copy" ? asl::Directory::copy(path.c_str(), target.c_str()) : asl::Directory::move(path.c_str(), target.c_str());
+			// through the Directory functions or through the File object's own copy()/move() (bit 1 of the last argument)
+			bool viaFile = (o.arg(2) & 2) != 0;
+			bool ok = o.k == "copy" ? (viaFile ? asl::File(path.c_str()).copy(target.c_str()) : asl::Directory::copy(path.c_str(), target.c_str()))
+			                        : (viaFile ? asl::File(path.c_str()).move(target.c_str()) : asl::Directory::move(path.c_str(), target.c_str()));
 			bool fired = sim::fs::fired();
 			sim::fs::disarm();
 			(void)ok;
